@@ -42,7 +42,7 @@ def accepted(i, t):
 def plan(tier, seed):
     items = [{"kind": "grid", "exhaustive": "accepted (i, t) grid x {responsive, silent after 0/1/3 pongs} x {no traffic, steady}"},
              {"kind": "refused", "exhaustive": "every refused (i, t) pair of the grid plus negative / zero values"}]
-    n = 3000 if tier == "quick" else 60000
+    n = 3000 if tier == "quick" else 240000
     per = 100 if tier == "quick" else 1000
     for s in range(0, n, per):
         items.append({"kind": "rand", "start": s, "count": per})
